@@ -14,15 +14,19 @@ QmapOf(os) == [i \in Ids |-> IF \E k \in DOMAIN os : os[k].id = i
 ObsOf(st) == [vis |-> st.vis, hid |-> st.hid, cnt |-> st.cnt, qmap |-> QmapOf(st.orders),
               tickets |-> st.tickets, st |-> st.st, gen |-> st.gen]
 
-(* what the public read API reports must be the observed state (C01 observe_at), the total
-   is visible plus hidden, the listing shows each resting order once in timestamp order (C10) *)
+(* what the public read API reports must be the observed state (C01 observe_at) and the total
+   is visible plus hidden *)
 ApiOk(st) ==
   LET a == st.api IN
   /\ a.vis = st.vis /\ a.hid = st.hid /\ a.cnt = st.cnt /\ a.tot = st.vis + st.hid
+  /\ a.sadded = st.st.added /\ a.sremoved = st.st.removed /\ a.sqty = st.st.qty /\ a.sval = st.st.val
+(* C10, third sentence: the listing shows each resting order exactly once, in non-decreasing
+   timestamp order *)
+ListOk(st) ==
+  LET a == st.api IN
   /\ Len(a.list) = Len(st.orders)
   /\ \A k \in DOMAIN a.list : \E j \in DOMAIN st.orders : st.orders[j] = a.list[k]
   /\ \A j, k \in DOMAIN a.list : j < k => a.list[j].ts <= a.list[k].ts /\ a.list[j].id # a.list[k].id
-  /\ a.sadded = st.st.added /\ a.sremoved = st.st.removed /\ a.sqty = st.st.qty /\ a.sval = st.st.val
 
 RetEq(m, r) ==
   /\ m.t = r.t
